@@ -279,6 +279,9 @@ def run_check(check, tier, seed=None, nruns=None, workers=None, budget=None, wri
     reported = []
     if agg["viols"]:
         agg["viols"].sort(key=lambda r: r["run"])
+        cnt = Counter(json.dumps(r["viol"]["signature"], sort_keys=True, default=str) for r in agg["viols"])
+        for k, n in cnt.most_common(40):
+            out("  %5d runs violate with signature %s" % (n, k))
         seen = set()
         for r in agg["viols"]:
             key = json.dumps(r["viol"]["signature"], sort_keys=True, default=str)
